@@ -199,6 +199,23 @@ def run_case(case, rec):
                       observed=common.hexs(m2.value) if m2.ok else None,
                       expected=common.hexs(data))
         return
+    # the consumer owns what it was handed: it changes the decoded headers
+    # table in place (at every nesting level); the same bytes decoded again
+    # must still say what they say
+    if isinstance(got.get('headers'), dict) and rec.evaluations % 2 == 0:
+        common.mutate_deep(g.properties.headers)
+        rec.count('decoded_then_mutated_then_decoded_again')
+        u3 = common.lib_unmarshal(data)
+        got3 = boundary.props_values(u3.value[2].properties) if u3.ok \
+            and boundary.kind_of(u3.value[2]) == 'header' else None
+        d3 = common.compare_values(exp, got3) if got3 is not None else \
+            ('headers', 'refused', u3.describe())
+        if d3:
+            rec.violation('second-decode-differs-after-consumer-change:%s'
+                          % d3[1], 'after the consumer changed the decoded '
+                          'headers table in place, decoding the same bytes '
+                          'again gives ' + str(d3[2])[:300], case)
+            return
     # cross-check the wire flags independently
     try:
         ref = refcodec.dec_frame(data)
